@@ -144,6 +144,7 @@ var oracleDomains = [][2]string{
 	{"logger.", "logger"},
 	{"jose.", "jose"},
 	{"err.", "errors"}, {"c08.", "errors"},
+	{"hs.", "hs"},
 	{"ws", "ws"},
 }
 
